@@ -16,6 +16,8 @@ mod error;
 mod inmemory;
 mod server;
 mod storage;
+#[cfg(tcss_verif)]
+mod verif;
 
 pub use error::*;
 pub use inmemory::*;
